@@ -54,13 +54,14 @@ fn obscured_digests(m: &M, out: &mut HashSet<D>) {
 pub fn run(ctx: &Ctx) -> i32 {
     let th = ctx.tier.thorough();
     let w = if th { 8 } else { 6 };
+    let w2 = if th { 5 } else { 4 };
     let mut trees = families::marked(w);
     let nplain = trees.len();
     // the re-used-marker instantiation adds multi-position targets
     trees.extend(families::plain(if th { 6 } else { 5 }));
     let nbuilt = trees.len();
     trees.extend(families::decode_only());
-    let acc = trees.par_iter().enumerate().map(|(ti, m)| {
+    let acc = trees.par_iter().enumerate().with_max_len(1).map(|(ti, m)| {
         let mut acc = Acc::new();
         acc.inc("trees");
         let e = if ti < nbuilt { bind::build(m, 0) } else { bind::build_route(m, bind::Route::Decode) };
@@ -104,13 +105,39 @@ pub fn run(ctx: &Ctx) -> i32 {
                 }
             }
         }
+        // second pass (light trees): the same menu on every first-pass result, i.e. on envelopes that already contain obscured elements.
+        // A targeted element that is already compressed or encrypted must still end up hidden - as the bare digest under the Elide action.
+        if ti < nplain && m.weight() <= w2 {
+            for mask1 in 1u32..(1u32 << k) { for rev1 in [false, true] { for (kind1, action1) in super::c02::actions() {
+                let t1: HashSet<D> = (0..k).filter(|i| mask1 >> i & 1 == 1).map(|i| ds[i]).collect();
+                let want1 = ops::elide(m, &t1, rev1, kind1);
+                if want1 == *m { continue }
+                let Ok(r1) = catch(|| e.elide_set_with_action(&bind::dset(&t1.iter().cloned().collect::<Vec<_>>()), rev1, &action1)) else { continue };
+                let mut already1: HashSet<D> = HashSet::new(); obscured_digests(&want1, &mut already1);
+                for mask2 in 0u32..(1u32 << k) { for rev2 in [false, true] { for (kind2, action2) in super::c02::actions() {
+                    acc.inc("second_pass_elisions");
+                    let t2: HashSet<D> = (0..k).filter(|i| mask2 >> i & 1 == 1).map(|i| ds[i]).collect();
+                    let want2 = ops::elide(&want1, &t2, rev2, kind2);
+                    let cid = || format!("p2/tree{ti}/mask{mask1}/rev{}/{kind1:?}/then/mask{mask2}/rev{}/{kind2:?}", rev1 as u8, rev2 as u8);
+                    match catch(|| r1.elide_set_with_action(&bind::dset(&t2.iter().cloned().collect::<Vec<_>>()), rev2, &action2)) {
+                        Err(_) => acc.inc("panics_no_result_counted_under_C16"),
+                        Ok(r2) => {
+                            if let Some((path, what)) = matches(&bind::observe(&r2), &bind::expected(&want2), &already1, kind2, "") {
+                                acc.viol(format!("C03|second-pass|{}|{kind1:?}-then-{kind2:?}|{what}", if rev2 { "revealing" } else { "removing" }), format!("on an envelope that already contains obscured elements the result differs from the statement's semantics at {path}: {what}"), cid(),
+                                    json!({"tree": m.show(), "first": want1.show(), "expected": want2.show(), "got": hex::encode(r2.to_cbor_data())}));
+                            }
+                        }
+                    }
+                } } }
+            } } }
+        }
         if ti % 211 == (ctx.seed as usize % 211) { acc.sample(json!({"tree": m.show(), "subsets": 1u32 << k})) }
         acc
     }).reduce(Acc::new, Acc::merge);
     // unelide: every (placeholder, candidate) pair of a family
     let fam: Vec<M> = { let mut f = families::marked(if th { 5 } else { 4 }); f.extend(families::plain(3)); f };
     let envs: Vec<Envelope> = fam.iter().map(|m| bind::build(m, 0)).collect();
-    let acc2 = (0..envs.len()).into_par_iter().map(|i| {
+    let acc2 = (0..envs.len()).into_par_iter().with_max_len(1).map(|i| {
         let mut acc = Acc::new();
         let ph = envs[i].elide();
         for j in 0..envs.len() {
@@ -130,11 +157,11 @@ pub fn run(ctx: &Ctx) -> i32 {
         acc
     }).reduce(Acc::new, Acc::merge);
     let acc = acc.merge(acc2);
-    let evals = acc.get("elisions") + acc.get("unelide_pairs");
+    let evals = acc.get("elisions") + acc.get("second_pass_elisions") + acc.get("unelide_pairs");
     let cov = json!({"evaluations": evals,
         "rule": "case = (tree with unique leaf markers, target subset incl. one absent digest, mode, action) compared with the model's elision semantics + byte-exact encoding for Elide + marker residue search; plus all (placeholder, candidate) unelide pairs; non-trivial = the model result hides at least one element",
         "exhaustive": true,
-        "bounds": {"tree_weight_marked": w, "tree_weight_reused_markers": if th { 6 } else { 5 }, "unelide_family": envs.len()}});
+        "bounds": {"tree_weight_marked": w, "second_pass_tree_weight": w2, "tree_weight_reused_markers": if th { 6 } else { 5 }, "unelide_family": envs.len()}});
     finish(ctx, acc, "exploration", cov, vec!["residue search looks for the dCBOR encoding of each hidden leaf (unique markers of >= 9 bytes, so a coincidental occurrence in ciphertext or a digest is negligible)".into(),
         "for an already-obscured targeted element any obscured form with the same digest is accepted (bare digest required for the Elide action)".into()])
 }
